@@ -8,6 +8,7 @@ import cg
 import facts
 import hirutil as H
 import k2
+import k1
 import k4
 from facts import AnchorLost, ap_str, ap_calls, hir_walk
 
@@ -80,8 +81,8 @@ def no_float(chk, F):
         if fn.id == powfn.id:
             for g in fn.guards_of(bb):
                 d = fn.guard_desc(g)
-                if d[0] == "bool" and d[2] is False and d[1][0][0] == "call" and d[1][0][1] == "<types::bigint::BigInt as core::cmp::PartialEq>::eq" \
-                        and "to_rational" in ap_str(d[1]) and ".1" in ap_str(d[1]) and "BigInt::one()" in ap_str(d[1]):
+                # (`den == one` false, or `den != one` true)
+                if k1.den_not_one(d) and "BigInt::one()" in ap_str(d[1]):
                     return True
         t = fn.blocks[bb]["term"]
         if t["k"] == "call" and "callee" in t:
